@@ -168,10 +168,9 @@ def MScan.new (e : RawEntry) : MScan :=
   let s : MScan := { entry := e, high := 0, lows := none, rest := [] }
   s.nextContainer ((e.bitmap.head?.map (·.1)).getD 0)
 
-/-- `scan(highKey, lowSeriesID, tagValueIDs)`; `none` = index out of range (`tagValueIDs[tagValueIdx]`
-with the slice exhausted) -/
-def MScan.scan (s : MScan) (h low : Nat) (buf : List ValId) : Option (MScan × List ValId) :=
-  let s := if s.high < h then s.nextContainer h else s
+/-- `scan` once the scanner stands on its container for `h` (or beyond); `none` = index out of range
+(`tagValueIDs[tagValueIdx]` with the slice exhausted) -/
+def MScan.scanCur (s : MScan) (h low : Nat) (buf : List ValId) : Option (MScan × List ValId) :=
   if h != s.high then some (s, buf)
   else
     match s.lows with
@@ -182,6 +181,10 @@ def MScan.scan (s : MScan) (h low : Nat) (buf : List ValId) : Option (MScan × L
         | v :: r => some ({ s with rest := r }, buf ++ [v])
         | [] => none
       else some (s, buf)
+
+/-- `scan(highKey, lowSeriesID, tagValueIDs)`: `if s.highKey < highKey { s.nextContainer(highKey) }` first -/
+def MScan.scan (s : MScan) (h low : Nat) (buf : List ValId) : Option (MScan × List ValId) :=
+  (if s.high < h then s.nextContainer h else s).scanCur h low buf
 
 /-- the inner `for _, scanner := range m.scanners` for one low key -/
 def scanAll (h low : Nat) : List MScan → List ValId → Option (List MScan × List ValId)
